@@ -41,6 +41,78 @@ fn run_bin(bin: &str, query: &str, mode: &str, input: &[u8]) -> Option<(Vec<u8>,
     Some((out.stdout, out.status.code().unwrap_or(-1)))
 }
 
+/// the same bytes, written to the binary's stdin in bursts with pauses between them
+fn run_bin_paced(bin: &str, query: &str, mode: &str, chunks: &[Vec<u8>], pause_ms: u64) -> Option<(Vec<u8>, i32)> {
+    let mut child = Command::new(bin)
+        .args(["-o", mode, query])
+        .stdin(Stdio::piped())
+        .stdout(Stdio::piped())
+        .stderr(Stdio::null())
+        .env("NO_COLOR", "1")
+        .spawn()
+        .ok()?;
+    let mut stdin = child.stdin.take()?;
+    let chunks: Vec<Vec<u8>> = chunks.to_vec();
+    let feeder = std::thread::spawn(move || {
+        for (i, c) in chunks.iter().enumerate() {
+            if i > 0 {
+                std::thread::sleep(std::time::Duration::from_millis(pause_ms));
+            }
+            if stdin.write_all(c).is_err() || stdin.flush().is_err() {
+                break;
+            }
+        }
+    });
+    let (done, fired) = kill_after(child.id(), 60);
+    let out = child.wait_with_output().ok()?;
+    done.store(true, std::sync::atomic::Ordering::SeqCst);
+    let _ = feeder.join();
+    if fired.load(std::sync::atomic::Ordering::SeqCst) {
+        return Some((out.stdout, -9));
+    }
+    Some((out.stdout, out.status.code().unwrap_or(-1)))
+}
+
+/// the output must not depend on WHEN the input arrives: the same lines in one piece and in bursts
+/// separated by pauses longer than the renderer's 50 ms refresh interval give the same bytes
+fn check_arrival_timing(ctx: &mut Ctx, bin: &str) {
+    let n = ctx.budget(48, 600);
+    for _ in 0..n {
+        let mut r = ctx.rng.fork();
+        let nlines = 3 + r.below(5);
+        // values whose text lengths differ by a few characters from line to line (column widths
+        // that carry over from one computed frame to the next would show)
+        let lines: Vec<Vec<u8>> = (0..nlines)
+            .map(|i| {
+                let len = 2 + r.below(12);
+                let k: String = std::iter::repeat((b'a' + (i % 5) as u8) as char).take(len).collect();
+                format!("{{\"k\":\"{}\",\"n\":{},\"s\":\"{}\"}}\n", k, r.range(0, 100000), "x".repeat(1 + r.below(9))).into_bytes()
+            })
+            .collect();
+        let q = *r.pick(&["* | json | count by k", "* | json | count, sum(n) by k", "* | json | max(n) as m by s, k", "* | json | count by k | sort by k", "* | json | sort by n", "* | json"]);
+        let mode = *r.pick(&["legacy", "legacy", "legacy", "json", "logfmt"]);
+        let cut = 1 + r.below(nlines - 1);
+        let whole: Vec<u8> = lines.concat();
+        let chunks = vec![lines[..cut].concat(), lines[cut..].concat()];
+        let pause = 120 + r.below(200) as u64;
+        let key = ckey(q, &whole);
+        let info = serde_json::json!({"query": q, "mode": mode, "input": String::from_utf8_lossy(&whole), "pause_after_line": cut, "pause_ms": pause});
+        let a = run_bin_paced(bin, q, mode, &[whole.clone()], 0);
+        let b = run_bin_paced(bin, q, mode, &chunks, pause);
+        match (a, b) {
+            (Some(a), Some(b)) => {
+                if a == b {
+                    ctx.case("arrival-timing", &key, "pass", info);
+                } else {
+                    ctx.case("arrival-timing", &key, "viol", serde_json::json!({"class": "C13/output-depends-on-arrival-timing", "what": "the same input in one piece and in two bursts with a pause gives different stdout",
+                        "one_piece": clip(&String::from_utf8_lossy(&a.0)), "two_bursts": clip(&String::from_utf8_lossy(&b.0)), "exit": [a.1, b.1], "case": info}));
+                }
+            }
+            _ => ctx.case("arrival-timing", "", "skip", serde_json::json!({"why": "cannot run the binary"})),
+        }
+    }
+}
+
 /// queries that route data through every unordered container of the implementation
 fn query(r: &mut Rng) -> (String, &'static str) {
     match r.below(18) {
@@ -76,6 +148,7 @@ pub fn check(ctx: &mut Ctx) {
             return;
         }
     };
+    check_arrival_timing(ctx, &bin);
     let n = ctx.budget(160, 3000);
     let reps = if ctx.thorough() { 24 } else { 6 };
     for _ in 0..n {
